@@ -15,8 +15,11 @@ package resolvers
 // One contract for every method of graph.MutationResolver (enumerated from the interface, so a
 // mutation added later is under the same contract): without a user in the context the call is
 // refused and nothing that can write has been called.
+// ... and with a user, the texts handed to the cache are sanitised the way the operations' validation demands
+// (opt sanitized: the clean-text preconditions of the cache's editing methods are obligations here)
 //@ func mutationResolver.* implementing graph.MutationResolver
 //@   props C17
+//@   opt sanitized
 //@   requires ctx != nil && cache.requestUser == nil
 //@   ensures [refused] !auth.hasUser(ctx) ==> err != nil && cache.repoWrites == old(cache.repoWrites)
 
